@@ -168,6 +168,22 @@ def _():
     return (pd.Series(SEQS, index=range(5, 5 + len(SEQS))),), {"seqs2": pd.Series(SEQS2, index=["a", "b", "c", "d"])}
 
 
+@spec("symdel_cross_unrelated_reference", NN + "symdel", sorted_triplets)
+def _():
+    # the queries are the sequences of the one-collection specifications, the reference shares almost nothing with them
+    return (["CDDD", "CASSLGF", "WWWW"],), {"seqs2": list(SEQS)}
+
+
+@spec("symdel_cross_unrelated_reference_k2", NN + "symdel", sorted_triplets)
+def _():
+    return (["CDDD", "CASSLGF", "WWWW"],), {"seqs2": list(SEQS), "max_edits": 2}
+
+
+@spec("nearest_neighbor_cross_unrelated_reference", NN + "nearest_neighbor", sorted_triplets)
+def _():
+    return (["CDDD", "WWWW"],), {"seqs2": list(SEQS) + list(SEQS2), "max_edits": 2}
+
+
 @spec("symdel_custom", NN + "symdel", sorted_triplets)
 def _():
     return (list(SEQS),), {"custom_distance": D.lev2, "max_custom_distance": 2.0, "max_edits": 2}
